@@ -169,7 +169,7 @@ SUMMED = ["runs", "calls", "forks", "nontrivial_runs", "isolation_checks", "disa
           "preemptions", "baton_handoffs", "long_runs", "very_long_runs", "hot_loop_runs", "crowd_runs", "churn_runs", "planned_respawns", "threads_started",
           "lifecycle_probes", "early_calls", "late_calls", "clock_queries_inside_library_calls", "simulated_ns", "allocations_inside_library_calls", "allocation_failures_injected", "plans_with_allocations", "fault_injecting_executions",
           "access_records", "nonstack_writes_observed", "conflicting_call_pairs", "plans_with_conflicts", "directed_executions",
-          "nested_calls_delivered", "nest_directed_executions", "same_caller_conflict_pairs", "handler_self_deadlocks"]
+          "alias_sweep_runs", "nested_calls_delivered", "nest_directed_executions", "same_caller_conflict_pairs", "handler_self_deadlocks"]
 
 
 def run_check(tier, seed):
@@ -332,7 +332,7 @@ def run_check(tier, seed):
         "build_cells": per_cell,
         "clients_per_run_histogram": dict({str(i + 1): clients_hist[i] for i in range(8)}, **{"more_than_8": clients_hist_crowd}),
         "plan_lengths": {"runs_with_150_plus_calls": total["long_runs"], "runs_with_3000_plus_calls": total["very_long_runs"],
-                         "hot_loop_runs_70000_plus_calls": total["hot_loop_runs"], "longest_plan": max_len},
+                         "hot_loop_runs_70000_plus_calls": total["hot_loop_runs"], "alias_sweep_runs_one_base_many_multipliers": total["alias_sweep_runs"], "longest_plan": max_len},
         "crowd_runs_66_to_90_live_callers": total["crowd_runs"],
         "thread_churn": {"runs_with_thread_restarts": total["churn_runs"], "planned_restarts": total["planned_respawns"],
                          "caller_threads_started": total["threads_started"], "most_threads_seen_by_one_process": max_threads},
